@@ -241,9 +241,6 @@ func scenarioC09x(c *hlib.RunCtx) *hlib.Violation {
 			// recorded end; while that finding is listed this jump is not generated.
 			kind = 7
 		}
-		if kind == 6 {
-			steppedBack = true
-		}
 		s.Spawn(p.p, "clock", func() {
 			simrt.Yield("clock:wait")
 			end := w.currentEnd(p)
@@ -282,6 +279,7 @@ func scenarioC09x(c *hlib.RunCtx) *hlib.Violation {
 					back = time.Duration(1+extra%5) * 24 * time.Hour
 				}
 				jumps = append(jumps, "back "+back.String())
+				steppedBack = true // from this instant on (not from the start of the phase) a return to an earlier day's file is legitimate
 				s.StepBack(back)
 				s.Probe("jump-kind-6")
 				return
